@@ -155,6 +155,24 @@ func main() {
 	code = runEngineA(p, *tier, base, *workers, *scale)
 }
 
+// stagesOf: all stages of a plan, or (development aid, never used by the
+// registered commands) only those named in VERIF_STAGES.
+func stagesOf(p *plan) []stage {
+	only := os.Getenv("VERIF_STAGES")
+	if only == "" {
+		return p.Stages
+	}
+	var out []stage
+	for _, st := range p.Stages {
+		for _, w := range strings.Split(only, ",") {
+			if st.Workload == w {
+				out = append(out, st)
+			}
+		}
+	}
+	return out
+}
+
 func die(f string, a ...interface{}) {
 	fmt.Fprintf(os.Stderr, f+"\n", a...)
 	os.Exit(2)
@@ -322,7 +340,7 @@ func runEngineA(p *plan, tier string, base uint64, workers int, scale float64) i
 	var findings []finding
 	var infra []string
 	perStage := map[string]int{}
-	for _, st := range p.Stages {
+	for _, st := range stagesOf(p) {
 		n := st.Quick
 		if tier == "thorough" {
 			n = st.Thorough
@@ -555,7 +573,7 @@ func replayA(p *plan, path string) int {
 // 1, 4, 16) and compares per-run digests.
 func selfTestA(p *plan, base uint64, n int) int {
 	bad := 0
-	for _, st := range p.Stages {
+	for _, st := range stagesOf(p) {
 		var digests []map[string]uint64
 		for _, gm := range []string{"1", "4", "16", "1"} {
 			os.Setenv("VERIF_GOMAXPROCS", gm)
